@@ -17,6 +17,7 @@ package vsched
 
 import (
 	"fmt"
+	"math/rand"
 	"reflect"
 	"runtime"
 	"runtime/debug"
@@ -338,9 +339,11 @@ func Select(cases ...SelCase) int {
 		return r
 	}
 	if S == nil {
+		// free-running: like Go's select, choose uniformly among the ready cases (always taking the first
+		// would starve a cancel channel behind an always-ready timer)
 		for {
 			if r := ready(); len(r) > 0 {
-				return r[0]
+				return r[rand.Intn(len(r))]
 			}
 			time.Sleep(50 * time.Microsecond)
 		}
